@@ -20,6 +20,7 @@ import math
 import os
 import pickle
 import struct
+import time
 
 from .. import core
 from ..core import cz, cbool, cfloat
@@ -375,7 +376,7 @@ class Params(Entry):
                     ({"omega_m": 0.2, "omega_l": 0.3, "flat": True}, [1, 3])]
             for kw, ops in hand:
                 cs.append({"kw": kw, "ops": ops, "family": "hand"})
-        for _ in range(ctx.n(60, 600)):
+        for _ in range(ctx.n(60, 400)):
             kind = r.choice(["flat", "open", "closed", "free-ol", "concordance"])
             kw = gen_cosmo(ctx, kind, K)
             ops = [r.randrange(0, 4) for _ in range(r.choice([0, 1, 1, 2, 3, 4]))]
@@ -419,9 +420,11 @@ class Chain(Entry):
 
     def __init__(self):
         self.results = []
+        self.searching = False
 
     def cases(self, ctx, round=0):
         K, r, cs = _STATE["K"], ctx.rng, []
+        self.searching = round > 0          # search rounds are not certified again (the first round is)
         if round == 0:
             for kw, z1, z2 in [({}, 0.0, 1.0), ({"omega_m": 0.3, "H0": 70.0}, 0.2, 0.9),
                                ({"omega_m": 0.27, "omega_l": 0.5, "omega_k": 0.23, "H0": 70.0}, 0.3, 2.2),
@@ -432,7 +435,7 @@ class Chain(Entry):
                 cs.append({"kw": kw, "z1": z1, "z2": z2, "family": "hand"})
         kinds = ["flat", "flat", "concordance", "open", "closed", "open", "closed", "free-ol"]
         zk = ["from0", "same", "tiny", "low", "edge", "any", "any", "any"]
-        for i in range(ctx.n(160, 2400)):
+        for i in range(ctx.n(160, 1000)):
             kind = kinds[i % len(kinds)]
             kw = gen_cosmo(ctx, kind, K)
             z1, z2 = gen_zpair(r, r.choice(zk))
@@ -451,7 +454,8 @@ class Chain(Entry):
             res["out"]["distmod"] = fh(float(o.distmod(z2))) if z2 > 0 else None
             return res
         res = core.guarded(f)
-        self.results.append((c, res))
+        if not self.searching:
+            self.results.append((c, res))
         return res
 
     def term(self, c, out):
@@ -547,7 +551,7 @@ class Dispatch(Entry):
     def cases(self, ctx, round=0):
         K, r, cs = _STATE["K"], ctx.rng, []
         nmax = ctx.n(6, 40)
-        for i in range(ctx.n(150, 1500)):
+        for i in range(ctx.n(150, 1000)):
             kind = r.choice(["flat", "open", "closed", "concordance"])
             kw = gen_cosmo(ctx, kind, K)
             if r.random() < 0.72:
@@ -798,7 +802,7 @@ def run_accuracy(ctx, results):
         if case["z2"] - case["z1"] < 1e-3:
             continue
         sel.append((case, res[1]))
-    sel = sel[:ctx.n(24, 220)]
+    sel = sel[:ctx.n(24, 100)]
     lem, owner = [], []
     for case, res in sel:
         conj = accuracy_lemma(case, res)
@@ -951,9 +955,16 @@ def run(ctx, replay=None):
     _STATE["K"] = K
     _STATE["port"] = Port(K)
     # 1. proofs
+    t0 = time.time()
+
+    def lap(name):
+        nonlocal t0
+        ctx.count("wall_s:" + name, round(time.time() - t0, 1))
+        t0 = time.time()
     if not core.proof_step(ctx, PID, core.ALLOW_DISCRETE + core.ALLOW_REALS + core.ALLOW_INTERVAL + core.ALLOW_FLOAT,
                            extra_targets=["theories/C11/Cert.vo"]):
         return
+    lap("proof_step")
     chain = Chain()
     entries = [Params(), chain, Dispatch()]
     if replay is not None:
@@ -971,12 +982,17 @@ def run(ctx, replay=None):
     else:
         # 2. constants and tables
         run_constants(ctx)
+        lap("constants")
     cosv = run_tables(ctx)
+    lap("tables")
     pre = PRE + "Definition cosv : oracle := %s.\n" % cosv
     # 3. differential entries
     differential(ctx, pre, entries, replay)
     if replay is not None:
         return
     # 4. / 5. certificates
+    t0 = time.time()
     run_certificates(ctx, chain.results)
+    lap("certificates")
     run_accuracy(ctx, chain.results)
+    lap("accuracy")
